@@ -10,3 +10,9 @@ func init() {
 		p("def shortcutLength : Nat := %d", lookup.VerifShortcutLength)
 	})
 }
+
+// bReseed decorrelates the streams of nearby seeds: newRng(seed) and
+// newRng(seed+1000) are the same splitmix64 stream shifted by 1000 draws, and
+// the thorough tier uses seeds seed+1000*k.  After this the state is a mixed
+// function of the seed.
+func bReseed(r *rng) { r.s = r.u64() }
